@@ -313,10 +313,10 @@ def check_history(spec):
             exp_s = [U[i[1]].key + "@" + str(U[i[1]].start_line) for i in m.held if i[0] == "b" and kinds[i[1]] == "S"]
             obs_s = [s.key + "@" + str(s.start_line) for s in lib.strings]
             if name == "replace":
-                v = _viol(step, op, "after a successful replace the strings view is no longer in block order (the replaced string moved to the end)",
-                          exp_s, obs_s, "N8-replace-success-reorders-strings")
+                # The statement fixes the order of `blocks` and `entries` only; `strings` is derived from the key index, and a
+                # successful replace re-inserts the key at its end.  Not a C08 violation (ruled outside the statement): from here
+                # on the strings view of this history is compared as a set.
                 order_free = True
-                recorded = recorded or v
             else:
                 return _viol(step, op, "strings view is not in block order", exp_s, obs_s)
     # frame: no call may have modified a universe block
@@ -357,11 +357,6 @@ def known_witnesses():
         out["F11b-replace-reorders"] = True
     except ValueError:
         out["F11b-replace-reorders"] = not (list(lib.strings_dict) == ["k", "j"] and _same(lib.strings, [U[3], U[5]]) and _same(lib.blocks, [U[3], U[5]]))
-    # N8 (found by this module, not in the README table): a *successful* replace moves the string to the end of the strings view
-    lib = Library()
-    lib.add([U[3], U[5]])
-    lib.replace(U[3], U[4])
-    out["N8-replace-success-reorders-strings"] = not (_same(lib.blocks, [U[4], U[5]]) and _same(lib.strings, [U[4], U[5]]))
     return out
 
 
